@@ -186,6 +186,7 @@ func (w *World) Commit(n string) int {
 	w.Now = w.Now.Add(BlockSeconds * time.Second)
 	c.EndBlock()
 	c.App.Commit()
+	DetRecord(fmt.Sprintf("commit|%x", c.App.LastCommitID().Hash), nil)
 	c.Now = w.Now
 	c.Header.Height = c.App.LastBlockHeight() + 1
 	c.Header.Time = w.Now
